@@ -31,34 +31,145 @@ def _raised_class(stmts):
     return None
 
 
+def _raise_class(node):
+    if isinstance(node, ast.Raise) and isinstance(node.exc, ast.Call) and isinstance(node.exc.func, ast.Name):
+        return node.exc.func.id
+    return None
+
+
+def _blocks(fn):
+    for n in ast.walk(fn):
+        for field in ("body", "orelse", "finalbody"):
+            b = getattr(n, field, None)
+            if isinstance(b, list) and b and isinstance(b[0], ast.stmt):
+                yield b
+
+
+def _first_raise(stmts):
+    """The raise a straight-line statement list ends in (assignments/expressions before it allowed)."""
+    for st in stmts:
+        if isinstance(st, ast.Raise):
+            return st
+        if not isinstance(st, (ast.Assign, ast.Expr, ast.AnnAssign, ast.AugAssign)):
+            return None
+    return None
+
+
 def _error_classes(fn):
     """
     Classes raised in the four branches of the truthy-error block:
     (pre-defined code, other code, single-entry object, anything else).
-    Located structurally: the `if` whose test mentions the chained comparison result decides the
-    first two; the `elif`/`else` of the `"code" in ...` test give the last two.
+    Located semantically, not by position: the `if` testing the range flag (`predefined` / `not predefined`; else-arm or
+    fall-through) gives the first two — cross-checked by the payload of the raise: a 2-tuple (code, message) for the
+    pre-defined class, a 3-tuple with the data for the other; the raise whose argument is `error[<key>]` is the
+    single-entry class, the raise whose argument is the error value itself the last one.
     """
-    rng_if = None
+    flag = None
     for n in ast.walk(fn):
-        if isinstance(n, ast.If):
-            r1 = _raised_class(n.body)
-            r2 = _raised_class(n.orelse)
-            if r1 and r2 and rng_if is None:
-                # innermost if with a raise in both arms: candidates
-                has_data = any(isinstance(m, ast.Constant) and m.value == "data" for s in n.orelse for m in ast.walk(s))
-                if has_data:
-                    rng_if = (r1, r2)
-    code_if = None
+        # `predefined = lo <= code <= hi`
+        if isinstance(n, ast.Assign) and isinstance(n.value, ast.Compare) and len(n.value.ops) == 2 and \
+                len(n.targets) == 1 and isinstance(n.targets[0], ast.Name):
+            flag = n.targets[0].id
+    if flag is None:
+        return None
+    pre = other = None
+    for block in _blocks(fn):
+        for i, st in enumerate(block):
+            if not isinstance(st, ast.If):
+                continue
+            t = st.test
+            neg = False
+            if isinstance(t, ast.UnaryOp) and isinstance(t.op, ast.Not):
+                t, neg = t.operand, True
+            if not (isinstance(t, ast.Name) and t.id == flag):
+                continue
+            r_true = _first_raise(st.body)
+            r_false = _first_raise(st.orelse) if st.orelse else _first_raise(block[i + 1:])
+            if neg:
+                r_true, r_false = r_false, r_true
+            if r_true is None or r_false is None:
+                return None
+            a_true = r_true.exc.args[0] if isinstance(r_true.exc, ast.Call) and r_true.exc.args else None
+            a_false = r_false.exc.args[0] if isinstance(r_false.exc, ast.Call) and r_false.exc.args else None
+            if not (isinstance(a_true, ast.Tuple) and len(a_true.elts) == 2 and isinstance(a_false, ast.Tuple) and len(a_false.elts) == 3):
+                return None
+            pre, other = _raise_class(r_true), _raise_class(r_false)
+    single = raw = None
     for n in ast.walk(fn):
-        if isinstance(n, ast.If) and any(isinstance(m, ast.Constant) and m.value == "code" for m in ast.walk(n.test)):
-            if len(n.orelse) == 1 and isinstance(n.orelse[0], ast.If):
-                single = _raised_class(n.orelse[0].body)
-                other = _raised_class(n.orelse[0].orelse)
-                if single and other:
-                    code_if = (single, other)
-    if rng_if and code_if:
-        return rng_if + code_if
+        c = _raise_class(n)
+        if c is None or not n.exc.args:
+            continue
+        a = n.exc.args[0]
+        if isinstance(a, ast.Tuple):
+            continue
+        # result["error"][key]  vs  result["error"]
+        def is_error_value(e):
+            return (isinstance(e, ast.Subscript) and isinstance(e.slice, ast.Constant) and e.slice.value == "error") or \
+                   (isinstance(e, ast.Name) and e.id in ("error", "err"))
+        if isinstance(a, ast.Subscript) and is_error_value(a.value) and not isinstance(a.slice, ast.Constant):
+            single = c
+        elif is_error_value(a):
+            raw = c
+    if pre and other and single and raw:
+        return (pre, other, single, raw)
     return None
+
+
+CHECKERS = ("check_for_errors", "__get_result", "_MultiCallIterator__get_result")
+
+SITES = [
+    ("ServerProxy._request", "ServerProxy._request"),
+    ("ServerProxy._request_notify", "ServerProxy._request_notify"),
+    ("MultiCallIterator.__get_result", "MultiCallIterator.__get_result"),
+    ("MultiCallIterator.__iter__", "MultiCallIterator.__iter__"),
+    ("MultiCallIterator.__getitem__", "MultiCallIterator.__getitem__"),
+    ("MultiCall._request", "MultiCall._request"),
+]
+
+
+def _is_checker_call(n):
+    if not isinstance(n, ast.Call):
+        return False
+    f = n.func
+    return (isinstance(f, ast.Name) and f.id in CHECKERS) or (isinstance(f, ast.Attribute) and f.attr in CHECKERS)
+
+
+def _call_site(fn):
+    """(calls the checker, some checker call sits inside a `try` that has handlers)."""
+    calls = False
+    guarded = False
+
+    def walk(node, in_try):
+        nonlocal calls, guarded
+        if _is_checker_call(node):
+            calls = True
+            if in_try:
+                guarded = True
+        if isinstance(node, ast.Try):
+            for s in node.body:
+                walk(s, in_try or bool(node.handlers))
+            for part in (node.handlers, node.orelse, node.finalbody):
+                for s in part:
+                    walk(s, in_try)
+            return
+        if isinstance(node, (ast.FunctionDef, ast.Lambda)) and node is not fn:
+            return
+        for c in ast.iter_child_nodes(node):
+            walk(c, in_try)
+
+    walk(fn, False)
+    return calls, guarded
+
+
+def _call_sites(src):
+    out = []
+    for label, qual in SITES:
+        fn = src.func("jsonrpc", qual)
+        if fn is None:
+            return None
+        c, g = _call_site(fn)
+        out.append((label, c, g))
+    return out
 
 
 def facts(src):
@@ -76,4 +187,12 @@ def facts(src):
         None if cls is None else "(%s)" % ", ".join(lean_str(c) for c in cls),
         ["C06"], "check_for_errors: exception class raised for (pre-defined code, other code, single-entry error, any other error)",
         json_value=cls))
+    sites = _call_sites(src)
+    out.append(Fact(
+        "clientCallSites", "List (String × Bool × Bool)",
+        None if sites is None else "[" + ", ".join(
+            "(%s, %s, %s)" % (lean_str(n), str(c).lower(), str(g).lower()) for n, c, g in sites) + "]",
+        ["C06"], "every client access path (proxy call, notification call, MultiCall index/iteration, whole-batch object): "
+                 "(site, calls check_for_errors or __get_result, some such call sits inside a try with handlers)",
+        json_value=sites))
     return out
